@@ -8,6 +8,7 @@ import (
 
 	"github.com/risor-io/risor/builtins"
 	"github.com/risor-io/risor/compiler"
+	"github.com/risor-io/risor/importer"
 	"github.com/risor-io/risor/internal/verifrt"
 	"github.com/risor-io/risor/object"
 	"github.com/risor-io/risor/parser"
@@ -65,6 +66,8 @@ var c14Cases = []c14Case{
 	{"other-module-sees-rebinding", map[string]string{"m": "tick(\"m\")\ncount := a\nfunc inc() { count = count + b }", "u": "tick(\"u\")\nimport m\nfunc peek() { return m.count }"}, "import m\nimport u\nm.inc()\nu.peek() + m.count", func(a, b int64) int64 { return 2 * (a + b) }, map[string]int{"m": 1, "u": 1}},
 	{"from-import-after-rebinding", map[string]string{"m": "tick(\"m\")\ncount := a\nfunc inc() { count = count + 1 }"}, "import m\nm.inc()\nfrom m import count\ncount", func(a, b int64) int64 { return a + 1 }, map[string]int{"m": 1}},
 	{"spawned-function-imports-an-already-imported-module", map[string]string{"m": "tick(\"m\")\nk := a\nfunc bump() { k = k + 1; return k }\nfunc get() { return k }"}, "import m\nm.bump()\nr := spawn(func() { import m as again\n return again.bump() }).wait()\nr + m.get()", func(a, b int64) int64 { return 2 * (a + 2) }, map[string]int{"m": 1}},
+	{"two-spawned-functions-import-the-same-module", map[string]string{"m": "tick(\"m\")\nk := a\nfunc bump() { k = k + 1; return k }"}, "func f() {\n import m\n return m.bump()\n}\nx := spawn(f).wait()\ny := spawn(f).wait()\nx + y", func(a, b int64) int64 { return 2*a + 3 }, map[string]int{"m": 1}},
+	{"function-importing-a-module-called-twice", map[string]string{"m": "tick(\"m\")\nk := a\nfunc bump() { k = k + 1; return k }"}, "func f() {\n import m\n return m.bump()\n}\nx := f()\ny := f()\nx + y", func(a, b int64) int64 { return 2*a + 3 }, map[string]int{"m": 1}},
 	{"spawned-function-uses-a-module-imported-by-main", map[string]string{"m": "tick(\"m\")\nk := a\nfunc bump() { k = k + 1; return k }\nfunc get() { return k }"}, "import m\nt := spawn(func() { return m.bump() })\nt.wait() + m.get()", func(a, b int64) int64 { return 2 * (a + 1) }, map[string]int{"m": 1}},
 	{"module-attribute-is-the-module-level-variable-not-a-block-local", map[string]string{"m": "tick(\"m\")\nx := a\nif true { x := b\n x = x + 1 }\nfunc getx() { return x }"}, "import m\nm.x - m.getx()", func(a, b int64) int64 { return 0 }, map[string]int{"m": 1}},
 	{"import-inside-function-twice", map[string]string{"m": "tick(\"m\")\nx := a"}, "f := func() { import m\n return m.x }\nf() + f()", func(a, b int64) int64 { return 2 * a }, map[string]int{"m": 1}},
@@ -174,4 +177,68 @@ func HarnessC14ModulesAcrossPieces() {
 	verifrt.Assert(ok1 && r1 == a+2, "module-variable-survives-later-pieces")
 	verifrt.Assert(ok2 && r2 == a+2, "module-variable-untouched-by-the-importer-variable-of-the-same-name")
 	verifrt.Assert(okk && k == b+100, "importer-variable-untouched-by-the-module")
+}
+
+// HarnessC14LocalImporterTrees: the importer that reads files below a source
+// directory keeps modules of the same base name in different directories
+// apart, and an evaluation rooted at another directory gets that directory's
+// files, whatever an earlier evaluation in the same process imported.
+func HarnessC14LocalImporterTrees() {
+	a, b, c, d := verifrt.Int64(), verifrt.Int64(), verifrt.Int64(), verifrt.Int64()
+	globals := map[string]any{"a": object.NewInt(a), "b": object.NewInt(b), "c": object.NewInt(c), "d": object.NewInt(d)}
+	for name, bi := range builtins.Builtins() {
+		globals[name] = bi
+	}
+	names := make([]string, 0, len(globals))
+	for n := range globals {
+		names = append(names, n)
+	}
+	run := func(dir, src string) (int64, bool) {
+		ctx := context.Background()
+		prog, err := parser.Parse(ctx, src)
+		if err != nil {
+			return 0, false
+		}
+		code, err := compiler.Compile(prog, compiler.WithGlobalNames(names))
+		if err != nil {
+			return 0, false
+		}
+		im := importer.NewLocalImporter(importer.LocalImporterOptions{GlobalNames: names, SourceDir: dir})
+		machine := New(code, WithGlobals(globals), WithImporter(im))
+		if err := machine.Run(ctx); err != nil {
+			return 0, false
+		}
+		tos, _ := machine.TOS()
+		return asInt(tos)
+	}
+	dirA := verifrt.TempDirWithFiles(map[string]string{
+		"conf.risor":     "v := a\n",
+		"x/conf.risor":   "v := b\n",
+		"y/conf.risor":   "v := c\n",
+		"y/user.risor":   "from y import conf\nfunc get() { return conf.v }\n",
+		"lib/util.risor": "v := a\n",
+	})
+	defer verifrt.RemoveTempDir(dirA)
+	dirB := verifrt.TempDirWithFiles(map[string]string{
+		"conf.risor":     "v := d\n",
+		"lib/util.risor": "v := d\n",
+	})
+	defer verifrt.RemoveTempDir(dirB)
+	verifrt.Assume(a != b && b != c && a != c && a != d)
+	switch verifrt.Choose(3) {
+	case 0:
+		got, ok := run(dirA, "import conf\nfrom x import conf as xc\nimport \"y/conf\" as yc\nconf.v == a && xc.v == b && yc.v == c ? 1 : 0")
+		verifrt.Reach("ran")
+		verifrt.Assert(ok && got == 1, "same-base-name-in-different-directories-are-different-modules")
+	case 1:
+		got, ok := run(dirA, "from y import user\nimport conf\nuser.get() == c && conf.v == a ? 1 : 0")
+		verifrt.Reach("ran")
+		verifrt.Assert(ok && got == 1, "a-module-importing-a-sibling-gets-the-sibling")
+	case 2:
+		first, ok1 := run(dirA, "import conf\nimport \"lib/util\"\nconf.v == a && util.v == a ? 1 : 0")
+		second, ok2 := run(dirB, "import conf\nimport \"lib/util\"\nconf.v == d && util.v == d ? 1 : 0")
+		verifrt.Reach("ran")
+		verifrt.Assert(ok1 && first == 1, "first-root-serves-its-own-files")
+		verifrt.Assert(ok2 && second == 1, "another-root-serves-its-own-files")
+	}
 }
